@@ -64,7 +64,11 @@ func (m *Model) RemoveChildByName(name string, opts ...resource.WriteOption) (*t
 // AddChildTrait ensures that a child with the given name and list of trait names exists in this model.
 // If no child with the given name is already know, one will be created.
 // If a child is already known with the given name, its traits will be unioned with the given trait names.
+// Panics if name is empty, like AddChild: a child without a name cannot be listed (its name is the page token key).
 func (m *Model) AddChildTrait(name string, traitName ...trait.Name) (child *traits.Child, created bool) {
+	if name == "" {
+		panic(fmt.Errorf("child has no name"))
+	}
 	msg, err := m.children.Update(name, &traits.Child{Name: name},
 		resource.WithCreateIfAbsent(),
 		resource.WithCreatedCallback(func() {
